@@ -11,8 +11,9 @@
 // loop on a reduced one.
 //
 // Oracle (the statement itself, evaluated with big integers so that wrap-around shows):
-//   sum of pool totals = pot, operator + sum of delegator rewards = pool total for each pool,
-//   no amount > pot.
+//
+//	sum of pool totals = pot, operator + sum of delegator rewards = pool total for each pool,
+//	no amount > pot.
 package main
 
 import (
@@ -20,6 +21,7 @@ import (
 	"fmt"
 	"math/big"
 	"os"
+	"runtime/debug"
 	"sort"
 	"strings"
 	"sync"
@@ -256,11 +258,13 @@ type found struct {
 }
 
 type collector struct {
-	mu    sync.Mutex
-	best  map[string]*found
-	evals atomic.Int64
-	nontr atomic.Int64
-	outc  sync.Map
+	mu         sync.Mutex
+	best       map[string]*found
+	evals      atomic.Int64
+	nontr      atomic.Int64
+	outc       sync.Map
+	byPot      sync.Map // "pot|invariant" -> count
+	firstByPot map[string]*found
 }
 
 func (k *collector) outcome(o string, n int64) {
@@ -303,8 +307,30 @@ func (k *collector) run(c *rcase, ord int64) {
 	k.outcome(v.outcome, 1)
 	if v.outcome == "violation" {
 		for _, name := range v.viol {
+			pk := fmt.Sprintf("pot=%d|%s", c.Pot, name)
+			bp, _ := k.byPot.LoadOrStore(pk, new(atomic.Int64))
+			bp.(*atomic.Int64).Add(1)
 			key := fmt.Sprintf("CalculateRewards|%s|%s", name, potClass(c.Pot))
-			k.violation(key, ord, c, fmt.Sprintf("%s; pot=%d pools=%v order: %s", v.detail, c.Pot, c.Pools, describeOrder(c)))
+			// format the (long) description only when this case would replace the recorded one
+			k.mu.Lock()
+			b1, ok1 := k.firstByPot[pk]
+			b2, ok2 := k.best[key]
+			k.mu.Unlock()
+			need1, need2 := !ok1 || ord < b1.ord, !ok2 || ord < b2.ord
+			if !need1 && !need2 {
+				continue
+			}
+			what := fmt.Sprintf("%s; pot=%d pools=%v order: %s", v.detail, c.Pot, c.Pools, describeOrder(c))
+			if need1 {
+				k.mu.Lock()
+				if b, ok := k.firstByPot[pk]; !ok || ord < b.ord {
+					k.firstByPot[pk] = &found{ord: ord, what: what}
+				}
+				k.mu.Unlock()
+			}
+			if need2 {
+				k.violation(key, ord, c, what)
+			}
 		}
 	}
 	if v.outcome == "nil-result" {
@@ -334,6 +360,7 @@ func canonical(pools []int, ranks [][]int) bool {
 
 func main() {
 	c := vlib.New("C45", "exploration")
+	debug.SetGCPercent(800) // millions of tiny short-lived snapshots
 	if sitesFile == "" {
 		c.Internal("built without harness/c45/build.sh: the iteration order of the reward maps is not owned")
 	}
@@ -353,7 +380,7 @@ func main() {
 	if len(poolSites) == 0 {
 		c.Internal("no pool loop found in CalculateRewards (sites: %s)", string(b))
 	}
-	col := &collector{best: map[string]*found{}}
+	col := &collector{best: map[string]*found{}, firstByPot: map[string]*found{}}
 
 	if c.Replay != "" {
 		rb, err := os.ReadFile(c.Replay)
@@ -408,33 +435,42 @@ func main() {
 	stakes := []uint64{0, 1_000_000, 15_000_000_000_000_000}
 	margins := [][2]int64{{0, 1}, {1, 2}, {1, 1}}
 	costs := []uint64{0, 340_000_000}
-	delegs := []int{1, 2, 3}
+	delegs := []int{2, 3}
 	blocks := []uint32{0, 1}
-	pots := []uint64{1, 7, 1_000_000_000, 10_000_000_000_000, two53 + 1, two53 + 3, 45_000_000_000_000_000}
+	pots := []uint64{7, 1_000_000_000, 10_000_000_000_000, two53 + 1, two53 + 3, 45_000_000_000_000_000}
 	if c.Thorough() {
-		stakes = []uint64{0, 1, 1_000_000, 15_000_000_000_000_000}
-		delegs = []int{0, 1, 2, 3}
+		delegs = []int{1, 2, 3}
+		pots = []uint64{1, 7, 1_000_000_000, 10_000_000_000_000, two53 + 1, two53 + 3, 45_000_000_000_000_000}
 	}
-	var alpha []poolCfg
-	for _, s := range stakes {
-		for _, m := range margins {
-			for _, co := range costs {
-				for _, d := range delegs {
-					for _, bl := range blocks {
-						alpha = append(alpha, poolCfg{Stake: s, MarginN: m[0], MarginD: m[1], Cost: co, Deleg: d, Blocks: bl})
+	mk := func(stakes []uint64, margins [][2]int64, costs []uint64, delegs []int) []poolCfg {
+		var out []poolCfg
+		for _, s := range stakes {
+			for _, m := range margins {
+				for _, co := range costs {
+					for _, d := range delegs {
+						for _, bl := range blocks {
+							out = append(out, poolCfg{Stake: s, MarginN: m[0], MarginD: m[1], Cost: co, Deleg: d, Blocks: bl})
+						}
 					}
 				}
 			}
 		}
+		return out
+	}
+	alpha := mk(stakes, margins, costs, delegs)
+	// snapshots of one or two pools use a wider alphabet
+	alphaSmall := alpha
+	if !c.Thorough() {
+		alpha = mk(stakes, [][2]int64{{0, 1}, {1, 1}}, costs, delegs)
+	}
+	if c.Thorough() {
+		alphaSmall = mk([]uint64{0, 1, 1_000_000, 15_000_000_000_000_000}, margins, costs, []int{0, 1, 2, 3})
 	}
 	// reduced alphabet for independent per-loop orders
-	var alphaR []poolCfg
-	for _, s := range []uint64{0, 1_000_000, 15_000_000_000_000_000} {
-		for _, m := range [][2]int64{{0, 1}, {1, 1}} {
-			for _, bl := range blocks {
-				alphaR = append(alphaR, poolCfg{Stake: s, MarginN: m[0], MarginD: m[1], Cost: 0, Deleg: 1, Blocks: bl})
-			}
-		}
+	alphaR := mk(stakes, [][2]int64{{0, 1}, {1, 1}}, []uint64{0}, []int{1})
+	alphaR3 := alphaR
+	if !c.Thorough() {
+		alphaR3 = mk(stakes, [][2]int64{{0, 1}}, []uint64{0}, []int{1})
 	}
 
 	type work struct {
@@ -445,6 +481,10 @@ func main() {
 	var ord atomic.Int64
 	for n := 1; n <= 3; n++ {
 		var ws []work
+		alpha := alpha
+		if n < 3 {
+			alpha = alphaSmall
+		}
 		multisets(len(alpha), n, func(idx []int) { ws = append(ws, work{append([]int{}, idx...), n}) })
 		pm := perms(n)
 		base := ord.Load()
@@ -476,6 +516,10 @@ func main() {
 	// (2) independent orders per loop, reduced alphabet
 	for n := 2; n <= 3; n++ {
 		var ws []work
+		alphaR := alphaR
+		if n == 3 {
+			alphaR = alphaR3
+		}
 		multisets(len(alphaR), n, func(idx []int) { ws = append(ws, work{append([]int{}, idx...), n}) })
 		pm := perms(n)
 		combos := 1
@@ -518,8 +562,10 @@ func main() {
 	}
 	c.Set("joint_order_cases", jointEvals)
 	c.Set("independent_order_cases", col.evals.Load()-jointEvals)
-	c.Set("pool_alphabet", len(alpha))
-	c.Set("pool_alphabet_independent_orders", len(alphaR))
+	c.Set("pool_alphabet_3_pools", len(alpha))
+	c.Set("pool_alphabet_1_2_pools", len(alphaSmall))
+	c.Set("pool_alphabet_independent_orders_2_pools", len(alphaR))
+	c.Set("pool_alphabet_independent_orders_3_pools", len(alphaR3))
 	c.Set("pots", pots)
 	finish(c, col, sites, false)
 }
@@ -539,6 +585,16 @@ func finish(c *vlib.Check, col *collector, sites []site, replay bool) {
 	c.Set("evaluations", col.evals.Load())
 	c.Set("distinct_nontrivial", col.nontr.Load())
 	c.Set("outcomes", oc)
+	vbp := map[string]int64{}
+	col.byPot.Range(func(k, v any) bool { vbp[k.(string)] = v.(*atomic.Int64).Load(); return true })
+	if len(vbp) > 0 {
+		c.Set("violating_cases_by_pot_and_invariant", vbp)
+		fv := map[string]string{}
+		for k, f := range col.firstByPot {
+			fv[k] = f.what
+		}
+		c.Set("first_violating_case_by_pot_and_invariant", fv)
+	}
 	var sl []string
 	for _, s := range sites {
 		sl = append(sl, fmt.Sprintf("#%d %s line %d: range %s (key %s)", s.Index, s.Func, s.Line, s.Expr, s.Key))
